@@ -2793,3 +2793,110 @@ func ruleTableShape(prog *Program, rep *Report, rels ...string) {
 		rep.Errorf("K-tableshape examined %d table cells (floor %d): anchors did not resolve", total, 100*len(rels))
 	}
 }
+
+// ---------------------------------------------------------------- K-dispatchargs
+
+// matchDispatchArgs: a switch that only chooses which of several like-typed functions
+// to call (every clause is one assignment `x = f_i(args...)`, the callees differ,
+// their signatures are identical) hands every callee the same arguments. One clause
+// with another argument text (a flipped test, another variable) configures that
+// variant differently from its siblings.
+func matchDispatchArgs(files []*ast.File, info *types.Info) (sites []synSite, examined int) {
+	for _, f := range files {
+		ast.Inspect(f, func(n ast.Node) bool {
+			sw, ok := n.(*ast.SwitchStmt)
+			if !ok || len(sw.Body.List) < 2 {
+				return true
+			}
+			type arm struct {
+				callee string
+				args   string
+				sig    string
+				lhs    string
+				pos    token.Pos
+			}
+			var arms []arm
+			for _, cl := range sw.Body.List {
+				cc := cl.(*ast.CaseClause)
+				if len(cc.Body) != 1 {
+					return true
+				}
+				as, ok := cc.Body[0].(*ast.AssignStmt)
+				if !ok || len(as.Lhs) != 1 || len(as.Rhs) != 1 {
+					return true
+				}
+				call, ok := as.Rhs[0].(*ast.CallExpr)
+				if !ok {
+					return true
+				}
+				id, ok := call.Fun.(*ast.Ident)
+				if !ok {
+					return true
+				}
+				fn, ok := info.Uses[id].(*types.Func)
+				if !ok {
+					return true
+				}
+				var args []string
+				for _, a := range call.Args {
+					args = append(args, types.ExprString(a))
+				}
+				arms = append(arms, arm{fn.Name(), strings.Join(args, ", "), fn.Type().String(), types.ExprString(as.Lhs[0]), call.Pos()})
+			}
+			distinct := map[string]bool{}
+			for _, a := range arms {
+				distinct[a.callee] = true
+				if a.sig != arms[0].sig || a.lhs != arms[0].lhs {
+					return true
+				}
+			}
+			if len(distinct) < 2 {
+				return true
+			}
+			examined++
+			count := map[string]int{}
+			for _, a := range arms {
+				count[a.args]++
+			}
+			major, mc := "", 0
+			for k, c := range count {
+				if c > mc || (c == mc && k < major) {
+					major, mc = k, c
+				}
+			}
+			for _, a := range arms {
+				if a.args != major {
+					name := enclosingFuncName(f, a.pos)
+					sites = append(sites, synSite{pos: a.pos, file: f, key: name + ":" + a.callee + ":arguments-differ",
+						msg: fmt.Sprintf("%s calls %s(%s) where the sibling clauses of the same switch pass (%s): this variant is configured differently from the others", name, a.callee, a.args, major)})
+				}
+			}
+			return true
+		})
+	}
+	return
+}
+
+const fixtureDispatchArgs = `package fixture
+
+func low(n int, nested bool) []int   { return nil }
+func exact(n int, nested bool) []int { return nil }
+func tags(n int, nested bool) []int  { return nil }
+
+func build(n int, u byte) (fa []int) {
+	switch {
+	case u&1 != 0:
+		fa = tags(n, u&4 == 0)
+	case u&2 != 0:
+		fa = exact(n, u&4 != 0)
+	default:
+		fa = low(n, u&4 == 0)
+	}
+	return
+}
+`
+
+func ruleDispatchArgs(prog *Program, rep *Report, rels ...string) {
+	rep.Rules = append(rep.Rules, "K-dispatchargs: a switch whose clauses only choose among like-typed functions (each clause one assignment x = f_i(args)) passes the same argument text to every callee: the field-plan builders for tag, exact and lower-case keys are configured alike")
+	runSynRule(prog, rep, "K-dispatchargs", rels, matchDispatchArgs, fixtureDispatchArgs, 1, len(rels)) // one buildFields per package
+}
